@@ -23,7 +23,8 @@ RULE = ("E4: (a) reader-writer lock - the real RWLock with threading.Lock replac
         "is replayed on the code (enabled threads, who is inside, and the state bijection must agree). (b) shared curve objects - for every ordered "
         "pair of operations (k*G with lazily built table, mul_add, equality, rescaling, affine conversion, coordinates, encoding, addition, "
         "signature verification with a shared key) thread A is preempted at EVERY line event inside the library and thread B runs to completion "
-        "in a second thread at that point; both results must equal the sequential results on private copies.")
+        "in a second thread at that point; both results must equal the sequential results on private copies."
+        ' Scenarios S5/S6 share a table-bearing generator point with z != 1 (table built / not yet built). Family curve2: TWO preemptions placed at shared-state accesses (lines with attribute accesses on self/other/cls or module-level variables, from the AST of every traced file): A runs to its i-th access, B to its j-th, A to its end, B to its end, for every i and j. Every lock type the module could create (Lock, RLock, Semaphore, Event, Condition) is replaced by a cooperative one.')
 ASSUMPTIONS = [
     "interleavings are explored at lock-operation granularity (lock) and source-line granularity (curve objects) under the GIL's atomicity; "
     "no claim about free-threaded builds or races inside single bytecodes",
